@@ -121,7 +121,10 @@ func c01Gen(tier string, r *rand.Rand) []Case {
 	var cs []Case
 	thorough := tier == "thorough"
 	rm1 := new(big.Int).Sub(blsR, big.NewInt(1))
-	baseDerive := []string{"valid", "negated", "plusT", "plusT3", "plusDelta", "xgep", "othermsg", "otherkey", "othertag", "infinity"}
+	// every group gets all eight header-bit patterns on its own valid signature: which patterns are
+	// distinguishable depends on the sign bit of that signature, so one fixed group is not enough
+	baseDerive := []string{"valid", "negated", "plusT", "plusT3", "plusDelta", "xgep", "othermsg", "otherkey", "othertag", "infinity",
+		"flags:0", "flags:1", "flags:2", "flags:3", "flags:4", "flags:5", "flags:6", "flags:7"}
 	flips := func(n int) []string {
 		var d []string
 		for i := 0; i < n; i++ {
